@@ -14,6 +14,7 @@ import Driver.Form
 import Driver.Relay
 import Driver.DevConn
 import Driver.RsPos
+import Driver.RsTask
 
 def main (args : List String) : IO UInt32 := do
   match args with
@@ -33,4 +34,5 @@ def main (args : List String) : IO UInt32 := do
   | ["relay"] => Driver.RelayDrv.main; return 0
   | ["devconn"] => Driver.DevConnDrv.main; return 0
   | ["rspos"] => Driver.RsPosDrv.main; return 0
+  | ["rstask"] => Driver.RsTaskDrv.main; return 0
   | _ => IO.eprintln "usage: svdrv <subsystem>"; return 2
